@@ -127,3 +127,64 @@ func c19RouteConfigReadOnly(c *Ctx) {
 	// tainted maps handed to code the rule cannot see into are not followed; the count of judged writes is reported
 	c.Pass("C19.R9", "pkg/filter/stream:coverage", 0, fmt.Sprintf("%d map writes in %d functions judged against %d per-route configuration sources", n, len(fns), roots))
 }
+
+// c19DecodeIntoZeroValue (R10): a dump is decoded into an empty model.
+// encoding/json decodes *into* what the target already holds: array elements are decoded over the existing elements
+// without zeroing them, structs and maps are merged - and the dump omits every `omitempty` field that is empty. Clause: in
+// the packages that load a configuration (pkg/mosn, pkg/configmanager, pkg/config/v2) every json.Unmarshal whose target is
+// a local value of a pkg/config/v2 type decodes into a value nothing was stored into before the call (no field of the
+// literal set, no whole-value assignment). A target pre-filled "with defaults" from another configuration keeps, for every
+// key the dump leaves out, the value of whatever listener or cluster sat at the same index.
+func c19DecodeIntoZeroValue(c *Ctx) {
+	n := 0
+	ord := ordCounter{}
+	var fns []*ssa.Function
+	for fn := range c.all {
+		if fn.Pkg == nil || len(fn.Blocks) == 0 || fn.Synthetic != "" {
+			continue
+		}
+		p := fn.Pkg.Pkg.Path()
+		if p == modPath+"/pkg/mosn" || p == modPath+"/pkg/configmanager" || p == modPath+"/pkg/config/v2" {
+			fns = append(fns, fn)
+		}
+	}
+	sort.Slice(fns, func(i, j int) bool { return fns[i].String() < fns[j].String() })
+	for _, fn := range fns {
+		ba := newBA(c, fn)
+		forEachInstr(fn, false, func(f *ssa.Function, in ssa.Instruction) {
+			call, ok := in.(*ssa.Call)
+			if !ok || calleeName(call.Common()) != "encoding/json.Unmarshal" || len(call.Common().Args) != 2 {
+				return
+			}
+			al, ok := stripIface(call.Common().Args[1]).(*ssa.Alloc)
+			if !ok {
+				return
+			}
+			st := derefStruct(al.Type())
+			if st == nil || !strings.Contains(al.Type().String(), "/pkg/config/v2.") {
+				return
+			}
+			n++
+			prefilled := ""
+			for _, r := range refs(al) {
+				switch x := r.(type) {
+				case *ssa.Store:
+					if x.Addr == ssa.Value(al) && ba.mayPrecede(x, call) {
+						prefilled = "the whole value is assigned before the decode"
+					}
+				case *ssa.FieldAddr:
+					for _, rr := range refs(x) {
+						if s, ok := rr.(*ssa.Store); ok && s.Addr == ssa.Value(x) && ba.mayPrecede(s, call) {
+							_, fld, _, _ := fieldAddrInfo(x)
+							prefilled = "field " + fld + " is set before the decode"
+						}
+					}
+				}
+			}
+			c.Check("C19.R10", ord.next(f, "decode-into-zero-value"), call.Pos(), prefilled == "", "the target of the decode is empty", "a configuration is decoded into a value that is not empty ("+prefilled+"): encoding/json merges into existing structs, maps and array elements, so every key the dump omits as empty keeps the value the pre-filled model had at the same position - the loaded configuration differs from the dumped one")
+		})
+	}
+	if n < 1 {
+		c.Unresolved("C19.R10", "json.Unmarshal calls into local pkg/config/v2 values in the configuration loaders")
+	}
+}
